@@ -231,6 +231,16 @@ def check(item, tier):
         if len(want_states) >= 2 and any(len(spec.acts[s]) < len(want_actions) or any(len(spec.T[s][a]) > 1 for a in spec.acts[s])
                                          for s in want_states):
             r.nontriv((spec_item, li, explicit))
+        # ---------------- reachable_state_vec: membership of each listed state in reachable_states()
+        try:
+            rsv = mdp.reachable_state_vec
+            rset = set(mdp.reachable_states())
+            for s in want_states:
+                r.count('transitions')
+                if bool(rsv[si[s]]) != (sl(s) in rset) or (sl(s) in rset) != (s in spec.reachable() or s in reach):
+                    bad('reachable_state_vec', {'s': s, 'got': bool(rsv[si[s]]), 'in_reachable_states': sl(s) in rset})
+        except BaseException as e:
+            bad('reachable_state_vec_exception', {'error': repr(e)[:200]})
         # ---------------- round trips
         def same_arrays(other, name):
             try:
@@ -284,6 +294,18 @@ def check(item, tier):
                 q._action_list = mdp._action_list
             if same_arrays(q, 'quicktabular'):
                 same_plan(q, 'quicktabular')
+            # deterministic specs through the next_state= / initial_state= constructor variants
+            if all(len(spec.Tall[s][a]) == 1 for s in range(n) for a in spec.acts[s]) and len(spec.init) == 1:
+                q3 = QuickTabularMDP(next_state=lambda s_, a_: sl(spec.Tall[mdp.s_of[s_]][mdp.a_of[a_]][0][0]), reward=mdp.reward,
+                                     actions=mdp.actions, initial_state=sl(next(iter(spec.init))), is_absorbing=mdp.is_absorbing,
+                                     discount_rate=mdp.discount_rate)
+                if explicit:
+                    q3._state_list = mdp._state_list
+                    q3._action_list = mdp._action_list
+                # read the reward matrix first: later arrays must not be affected by distributions handed out earlier
+                q3.reward_matrix
+                if same_arrays(q3, 'quicktabular_next_state'):
+                    same_plan(q3, 'quicktabular_next_state')
             q2 = QuickMDP(next_state_dist=mdp.next_state_dist, reward=mdp.reward, actions=mdp.actions,
                           initial_state_dist=mdp.initial_state_dist(), is_absorbing=mdp.is_absorbing,
                           discount_rate=mdp.discount_rate)
